@@ -41,10 +41,13 @@ pub fn tuple_struct(tpl: &TupleStruct, env: Option<&Environment>, p: &Interprete
   let payload = expression(&tpl.value, env, p)?;
   let variant_id = tpl.name.hash();
   let state_brrw = p.state.borrow();
-  if let Some((enum_id, enum_def)) = state_brrw
+  // The variant names an enum only when exactly one defined enum declares it: the enum table is a HashMap, so taking
+  // the first match made the result depend on the hash seed when two enums share a variant name.
+  let mut owners = state_brrw
     .enums
     .iter()
-    .find(|(_, enm)| enm.variants.iter().any(|(known_variant, _)| *known_variant == variant_id))
+    .filter(|(_, enm)| enm.variants.iter().any(|(known_variant, _)| *known_variant == variant_id));
+  if let (Some((enum_id, enum_def)), None) = (owners.next(), owners.next())
   {
     let variants = vec![(variant_id, Some(payload))];
     let enm = MechEnum {
